@@ -252,12 +252,12 @@ def main():
      "checks": [],
      "notes": ("All checks: ./check <id> --tier quick|thorough ; exit 0 held / 1 VIOLATION / 2 machinery failure. "
                "known_findings.json lists genuine defects (open => KNOWN-FINDING lines, fixed => suppress nothing). "
-               "Extension modules X01 (Printing), X02 (MatAlgebra), X03 (DenseElem), X04 (Arguments) extend the specification beyond the 20 "
+               "Extension modules X01 (Printing), X02 (MatAlgebra), X03 (DenseElem), X04 (Arguments), X05 (Plumbing) extend the specification beyond the 20 "
                "listed properties (./check X0n --tier quick|thorough; evidence in evidence_ext/, divergences printed as "
                "EXT-VIOLATION); they are not claimed as property checks.  Every driver rotates the memory layout and the "
                "element type of the arrays handed to pyttb, and further property-specific presentations (magnitudes, scalar "
                "types, key forms, index offsets; DESIGN 12.7); pure operations are also checked for leaving their operands "
-               "unchanged.  338 seeded property-breaking changes with their verdicts are kept under seeded/ (DESIGN 12.6)."),
+               "unchanged.  %d seeded property-breaking changes with their verdicts are kept under seeded/ (DESIGN 12.6)." % len([d for d in (V / "seeded").iterdir() if d.is_dir()])),
      "not_applicable": []
     }
     engines = {}
@@ -284,7 +284,8 @@ def main():
                              "kind_free_text": "TLA+ specification checked with TLC (model checking, behaviour generation, trace validation)"})
     for name, what in (("Printing", "X01: printed form of every class"), ("MatAlgebra", "X02: tenmat / sptenmat / sumtensor / ttensor algebra"),
                        ("DenseElem", "X03: dense element-wise operations and tenfun"),
-                       ("Arguments", "X04: argument validators, index-key classification, shape / vector normalisers")):
+                       ("Arguments", "X04: argument validators, index-key classification, shape / vector normalisers"),
+                       ("Plumbing", "X05: completion of row / column modes of an unfolding, renumbering of subscripts into and out of a region")):
         m["engines"].append({"name": name, "path": f"/verif/spec/{name}.tla", "serves_properties": [],
                              "kind_free_text": "TLA+ specification beyond the listed properties (extension module " + what + ")"})
     json.dump(m, open(V / "MANIFEST.json", "w"), indent=1)
